@@ -75,6 +75,14 @@ func DelayBounds(attempt int, rc dispatcher.RetryConfig) (time.Duration, time.Du
 	}
 	lo := d * (1 - j)
 	hi := d * (1 + j)
+	// without a cap the value may exceed what a Duration holds: saturate
+	const top = float64(math.MaxInt64 / 2)
+	if lo > top {
+		lo = top
+	}
+	if hi > top {
+		hi = top
+	}
 	return time.Duration(math.Floor(lo)) - 1, time.Duration(math.Ceil(hi)) + 1
 }
 
@@ -103,6 +111,10 @@ type RecStore struct {
 	mu    sync.Mutex
 	ev    []Event
 	lease map[string]leaseInfo
+	// settled[lease] is false from the moment Dequeue handed the lease to the
+	// dispatcher and true once a settlement call for it has returned (with any
+	// result). The clock driver must not move time while a lease is in between.
+	settled map[string]bool
 	// FailMutations makes every n-th lease mutation fail (fault injection; the
 	// attempt bound is then not asserted, as the quantifier says).
 	FailEvery int
@@ -117,7 +129,7 @@ type leaseInfo struct {
 }
 
 func NewRecStore(st queue.Store, clock *vlib.VClock) *RecStore {
-	return &RecStore{Store: st, clock: clock, lease: map[string]leaseInfo{}}
+	return &RecStore{Store: st, clock: clock, lease: map[string]leaseInfo{}, settled: map[string]bool{}}
 }
 
 func (s *RecStore) add(e Event) {
@@ -140,6 +152,7 @@ func (s *RecStore) Dequeue(req queue.DequeueRequest) (queue.DequeueResponse, err
 		s.mu.Lock()
 		for _, it := range resp.Items {
 			s.lease[it.LeaseID] = leaseInfo{it.ID, it.Attempt, it.Target}
+			s.settled[it.LeaseID] = false
 			s.ev = append(s.ev, Event{Seq: len(s.ev), Kind: "dequeue", Now: now, Msg: it.ID, Lease: it.LeaseID, Attempt: it.Attempt, Target: it.Target, OK: true})
 		}
 		s.mu.Unlock()
@@ -168,8 +181,20 @@ func (s *RecStore) inject() bool {
 func (s *RecStore) settle(now int64, kind, lease string, delay time.Duration, reason string, err error) {
 	s.mu.Lock()
 	li := s.lease[lease]
+	if _, ok := s.settled[lease]; ok {
+		s.settled[lease] = true
+	}
 	s.ev = append(s.ev, Event{Seq: len(s.ev), Kind: kind, Now: now, Msg: li.msg, Lease: lease, Attempt: li.attempt, Delay: delay, Reason: reason, OK: err == nil, ErrText: errText(err), Target: li.target})
 	s.mu.Unlock()
+}
+
+// LeaseSettled: (known, settled). A lease the store shows but the recorder
+// does not know yet is still being handed over by Dequeue.
+func (s *RecStore) LeaseSettled(lease string) (bool, bool) {
+	s.mu.Lock()
+	defer s.mu.Unlock()
+	v, ok := s.settled[lease]
+	return ok, v
 }
 
 func errText(err error) string {
@@ -405,7 +430,7 @@ func Run(c *vlib.Ctx, sc Scenario) {
 	deadline := time.Now().Add(90 * time.Second)
 	ok := true
 	for cyc := 0; cyc < cycles && ok; cyc++ {
-		ok = drive(h, clock, del, deadline)
+		ok = drive(h, rec, clock, del, deadline)
 		if ok && sc.RequeueDead && cyc == 0 {
 			snap, _ := h.Snap()
 			var ids []string
@@ -433,9 +458,10 @@ func Run(c *vlib.Ctx, sc Scenario) {
 // message is terminal. Idle detection uses Stats (cheap); a full snapshot is
 // taken only when a lease lingers without a delivery in flight (injected
 // settlement failure: the lease has to expire in virtual time).
-func drive(h *vlib.Handle, clock *vlib.VClock, del *Deliverer, deadline time.Time) bool {
+func drive(h *vlib.Handle, rec *RecStore, clock *vlib.VClock, del *Deliverer, deadline time.Time) bool {
 	idleSince := time.Time{}
 	leasedSince := time.Time{}
+	firstSeen := map[string]time.Time{}
 	for time.Now().Before(deadline) {
 		st, err := h.Store.Stats()
 		if err != nil {
@@ -457,14 +483,33 @@ func drive(h *vlib.Handle, clock *vlib.VClock, del *Deliverer, deadline time.Tim
 			}
 		}
 		if leased > 0 && !busy {
+			// A leased message is either on its way through the dispatcher (handed over
+			// by Dequeue, settlement call not yet returned: the clock must wait) or
+			// orphaned by a failed settlement (then only lease expiry moves it on).
 			if leasedSince.IsZero() {
 				leasedSince = time.Now()
 			}
-			if time.Since(leasedSince) < 25*time.Millisecond {
-				busy = true // settlement of a finished delivery is probably on its way
-			} else if snap, err := h.Snap(); err == nil {
+			snap, err := h.Snap()
+			if err != nil {
+				busy = true
+			} else {
 				for _, r := range snap {
-					if r.State == queue.StateLeased && (next == 0 || r.LeaseUntil < next) {
+					if r.State != queue.StateLeased {
+						continue
+					}
+					known, settled := rec.LeaseSettled(r.LeaseID)
+					if !known || !settled {
+						first, ok := firstSeen[r.LeaseID]
+						if !ok {
+							first = time.Now()
+							firstSeen[r.LeaseID] = first
+						}
+						if time.Since(first) < 10*time.Second {
+							busy = true // (10s of wall clock per lease: a dispatcher that forgets a lease must not hang the run)
+							break
+						}
+					}
+					if next == 0 || r.LeaseUntil < next {
 						next = r.LeaseUntil
 					}
 				}
